@@ -45,6 +45,8 @@ P = {
   technique="kind-discipline lint over all RULE_*/MULT_* comparisons + control-dependence inside the fixpoint loop + table agreement"),
 "C04": dict(
   decided={
+    "C04.e": "the table of built-in conversions is written only in __init__: no other method mutates it (directly or through an alias) or binds another attribute to the table itself instead of a copy",
+    "C04.d": "numeric regexes accept their writer: L(str(int)) within L(INT), L(repr(finite float)) within L(FLOAT) and L(STRICTFLOAT) (core languages, by automaton product); STRICTFLOAT accepts no digit-only word; both float patterns end in the same context assertions",
     "C04.a": "STRING: for each delimiter the regex's only escape alternative is backslash+delimiter and the converter strips one char per side and unescapes exactly that",
     "C04.b": "BOOL: finite language of the regex equals the documented spellings and the converter maps each to the documented boolean",
     "C04.c": "NUMBER tries STRICTFLOAT before INT, BASETYPE tries NUMBER first; INT/FLOAT/STRICTFLOAT converters are int/float of the whole match",
@@ -54,6 +56,7 @@ P = {
   technique="regex AST (re._parser) structure queries + abstract evaluation of the converter lambdas over the finite spelling set"),
 "C05": dict(
   decided={
+    "C14.h": "postponed initialisation: the per-object record is removed from _tx_obj_attrs before the collected attributes are applied to the object and before __init__ runs (the instrumented __setattr__ routes by the record's presence)",
     "C05.a": "the walkers documented to follow containment only make every descent control-dependent on attr.cont",
     "C05.b": "get_children: append before/after descent by children_first, visited-by-id, should_follow dominates the descent; parent climb only through .parent; parent assigned after the children loop only when the stack is non-empty",
     "C05.c": "the single-valued descent of get_children is guarded by a None-test of the child, never by its truth value",
@@ -64,6 +67,7 @@ P = {
   technique="control-dependence (CFG post-dominators) on descent sites + sibling cross-check of the three walkers"),
 "C06": dict(
   decided={
+    "C06.e": "an object's _tx_position / _tx_position_end are the position / position_end of one and the same parse-tree node (the node the object is built from), unconditionally",
     "C06.a": "get_location: parser and file name derive from get_model(model_obj), offsets from model_obj; nchar = end - start; keys line/col/nchar/filename; _tx_position/_tx_position_end are taken from .position/.position_end of the same node",
     "C06.b": "collected attributes (incl. _tx_position/_tx_position_end) are copied to user objects one by one; an unsettable attribute suppresses only itself",
     "C06.c": "the text handed to the parser is the caller's string, unmodified",
@@ -93,6 +97,8 @@ P = {
   technique="defer-path / store-path analysis on the resolver loop (CFG + path atoms)"),
 "C09": dict(
   decided={
+    "C08.a": "(shared with C08) result independent of the resolution order: list references are stored positionally",
+    "C08.b": "(shared with C08) the position table is per list, persistent across rounds and updated in parallel with the list",
     "C09.a": "conservation: every cross-reference taken from the work list ends in exactly one of re-queued / counted+stored / exception (all paths of the loop body)",
     "C09.b": "driver loop: condition conjoins 'unresolved > 0' and 'resolved this round > 0'; counters reset each iteration and fed only by resolve_one_step",
     "C09.c": "the unresolved error is raised iff the counter is positive after the loop and names the same delayed lists",
@@ -104,9 +110,10 @@ P = {
 "C10": dict(
   decided={
     "C10.a": "FQN.find_obj restricts candidate attributes to containment (excludes parent and reference attributes)",
-    "C10.b": "_find_referenced_obj tries the referencing object first, then climbs parent only; textx_isinstance dominates the success return",
+    "C10.b": "_find_referenced_obj tries the referencing object first, then climbs parent only (every search starts at that variable); textx_isinstance dominates the success return",
     "C10.c": "list-valued and scalar-valued descent branches agree (both test the name and return the match)",
     "C10.e": "the FQN search helpers never raise for a failed candidate; the candidate filter excludes by name only dunder and _tx_ names",
+    "C10.f": "the containment table consulted for the attributes of an object is the table of that object's own class",
     "C10.d": "objects found by the FQN search are recognised by None-test, not by truth value",
   },
   declined="correctness for all trees and names",
@@ -141,6 +148,7 @@ P = {
   technique="CFG dominance / must-pass-through + sibling-branch agreement"),
 "C14": dict(
   decided={
+    "C14.h": "postponed initialisation: the per-object record is removed from _tx_obj_attrs before the collected attributes are applied to the object and before __init__ runs (the instrumented __setattr__ routes by the record's presence)",
     "C14.a": "obligation O1: attribute-method instrumentation of user classes is restored on every exit of every load for every model under construction; no release without acquire",
     "C14.c": "the tuple of dunder names restored covers the tuple replaced",
     "C14.d": "__init__ called once per created instance with kwargs filtered to grammar attributes, after restore and before processors",
@@ -177,6 +185,7 @@ P = {
   technique="who-may-call check + __init__/clone container table agreement"),
 "C17": dict(
   decided={
+    "C18.b": "(shared with C18) cleanup of an abandoned load removes only models still under construction: finished models stay cached",
     "C17.a": "the model is registered (pre_ref_resolution_callback) before any referenced model is loaded (cycle cut)",
     "C17.b": "load_model loads only when neither repository has the file, otherwise returns the cached model",
     "C17.c": "ImportURI lookup order: own model, local models, builtin models, first hit",
@@ -340,6 +349,7 @@ P = {
   technique="field-coverage table agreement between get_location and the handler"),
 "C34": dict(
   decided={
+    "C08.c": "(shared with C08) every queued reference carries the start and end offset of its own parse-tree node (the span later published as ref_pos_start / ref_pos_end)",
     "C34.a": "ref_pos_end derives from the cross-reference only",
     "C34.b": "the position list is sorted before exposure when a defer path / several models exist",
     "C34.c": "innermost object wins for a shared span",
@@ -357,6 +367,7 @@ GENERAL = {
     "T": "(general) values that may be model objects or converted match values (attribute values read through the metamodel, parent links, results of scope providers / object processors / lookups) are tested with `is None`, never for truth, in every function of this property's mechanism",
     "M": "(general) memo keys: wherever a computation is skipped because a key was seen before (dict / set / attribute used as a memo), every input of the skipped computation that can vary during the memo's lifetime is determined by the key",
     "O": "(general) every metamodel option is stored verbatim from the constructor parameter of the same name and read under that name",
+    "P": "(general) navigation through an attribute named at run time (RREL steps, dotted paths): every use of getattr(obj, name)'s value lies where needs_to_be_resolved(obj, name) is known false",
     "S": "(general) Arpeggio expression objects are never shallow-copied (a shallow copy shares the packrat table `_result_cache` and the child list with its original)",
 }
 def _add_general():
